@@ -331,8 +331,11 @@ prop("C14", [
          "413, within => served and never 413. time: one case = (header,body) time-out pair x stall point (after "
          "connect, inside request line, inside headers, after headers, inside body) x stall {T-500, T, T+500, T+1000 ms} "
          "x scan phase {0,250 ms} under virtual time in 250 ms ticks; stall <= T => 200 and never a 408 at or before "
-         "T; stall >= T+500 ms => 408, handler not run, connection closed; executions = connections served; "
-         "non-trivial = multi-read deliveries and all time cases",
+         "T; stall >= T+500 ms => 408, handler not run, connection closed. time2: two connections on the one worker, "
+         "each stalled at its own point (quick: after connect / inside headers / inside body; thorough: all five), the "
+         "second opened 0/250/500 ms after the first, 3 time-out pairs: each connection gets its 408 within one scan "
+         "period (500 ms) after its own applicable time-out counted from its own start and never earlier; executions = "
+         "connections served / two-connection runs; non-trivial = multi-read deliveries and all time cases",
     assumptions=COMMON_ASSUME + ["time is virtual (clock_gettime / timerfd interposed); the 500 ms idle scan of the "
                                  "endpoint is driven by the virtual clock", "timing of the first request on a connection "
                                  "only (the statement's 'start of that request' is the connection's start there)"],
@@ -351,11 +354,14 @@ prop("C09", [
          "{acceptor step, worker_i step, client_j next action} with <= D deviations from the default 'run the loops "
          "dry, then the next client acts' on a real Http::Endpoint whose threads are gated at epoll_wait; scenarios "
          "marked shutdown additionally issue shutdown() before every point of every explored schedule and require all "
-         "framework threads to terminate; oracle: each request exactly one response with its own tag/method/body, 405 "
+         "framework threads to terminate; lock-granular scenarios (w=1 c=2, w=2 c=3) additionally make acceptor and "
+         "workers yield before every mutex acquisition (interposed pthread_mutex_lock); one scenario lets the first two "
+         "accept4 calls fail with EMFILE; oracle: each request exactly one response with its own tag/method/body, 405 "
          "with the exact Allow set, no busy-wait; TSan build (raw-futex gate) must report no data race; states = nodes "
          "of the schedule tree; transitions = event-loop steps granted",
-    assumptions=COMMON_ASSUME + ["interleaving granularity = one epoll_wait batch per thread (finer-grained races inside a "
-                                 "batch are left to the TSan pass, which sees no happens-before from the gate)"],
+    assumptions=COMMON_ASSUME + ["interleaving granularity = one epoll_wait batch per thread, and one critical-section-to-"
+                                 "next-lock stretch in the lock-granular scenarios (the TSan pass sees no happens-before "
+                                 "from the gate itself)"],
     bounds={"quick": "w<=3, c<=3, r<=2, D<=1; shutdown at every prefix of the default schedules",
             "thorough": "D<=2, shutdown at every prefix of the 1-deviation schedules"})
 
@@ -367,13 +373,15 @@ prop("C15", [
     rule="one case = a scenario (client threads 1..2, maxConnectionsPerHost 1..2, batch of n<=3 (thorough 4) tagged "
          "requests, per-request server behaviour in {whole, two pieces, chunked, whole-then-close} - all vectors for "
          "n<=2, a third of them for larger n - plus time-out scenarios: first request with a 1 s time-out never "
-         "answered / answered late): DFS with <= D deviations over the orders of {client reactor_k step, issue next "
+         "answered / answered late / dropped by the server, which goes on serving the connection; time-out on the first "
+         "or on every request): DFS with <= D deviations over the orders of {client reactor_k step, issue next "
          "request, server accept, server read, server answer piece, tick(+500 ms)} with a real "
          "Experimental::Client whose reactor threads are gated at epoll_wait and a scripted loopback server; oracle "
          "per execution: every promise settled at most once, fulfilled only with the response carrying its own tag, "
          "answered requests fulfilled by quiescence, unanswered request with an expired time-out rejected, peak of "
          "simultaneously open server-side connections <= limit, no request left in the client's queue while a connection "
-         "to that host is idle; states = nodes of the schedule tree",
+         "to that host is idle, no reactor thread blocked before a held mutex at quiescence; states = nodes of the "
+         "schedule tree",
     assumptions=COMMON_ASSUME + ["in the ordinary scenarios requests are issued from the harness thread while the reactor "
                                  "threads are parked (an issue is atomic w.r.t. reactor steps); the 'fine-grained issue' "
                                  "scenarios issue from gated threads that also park before every mutex acquisition, which "
